@@ -112,6 +112,8 @@ def main():
         old.setdefault(k, {}).setdefault('results', {}).update(o.get('results', {}))
         if 'error' in o:
             old[k]['error'] = o['error']
+        else:
+            old[k].pop('error', None)
     Path(a.out).write_text(json.dumps(old, indent=1, sort_keys=True) + '\n')
     shutil.rmtree(ROOT, ignore_errors=True)
 
